@@ -37,6 +37,7 @@ LEVEL_TEXT = (
     "prefer SGRID exactly when declared, and never merge user-supplied with parsed keyword arguments. Decides the position-to-dimension assignment; "
     "that the resulting Grid computes the same results follows from it handing the same coords mapping to the same constructor (not executed)."
 )
+LEVEL_TEXT += ' Also decided: a grid_topology variable without a declared SGRID convention does not switch the parser; dimension names that are words of the SGRID attribute itself; falsy user values in the six conflict blocks are refused like any other.'
 LEVEL_NOTE = "Trusted: xarray attribute access; the geometry model; the abstract evaluator."
 
 N = Lin.sym("N")
